@@ -313,3 +313,53 @@ fn kill_tree(pid: u32) {
         let _ = Command::new("kill").arg("-9").arg(c.to_string()).status();
     }
 }
+
+
+/// Run one input stream through the release binary under valgrind memcheck (supplementary observer
+/// of the parts of the engine only the real process runs: the stdin read loop, process exit).
+/// Returns (stdout lines, exit code, memcheck log); Err when valgrind cannot be started.
+pub fn run_memcheck(bin: &Path, input: &[u8], log: &PathBuf, watchdog: Duration) -> Result<(Vec<String>, Option<i32>, String), String> {
+    let _ = std::fs::remove_file(log);
+    let mut child = Command::new("valgrind")
+        .arg("-q")
+        .arg("--error-exitcode=99")
+        .arg("--leak-check=no")
+        .arg(format!("--log-file={}", log.display()))
+        .arg(bin)
+        .stdin(Stdio::piped())
+        .stdout(Stdio::piped())
+        .stderr(Stdio::null())
+        .spawn()
+        .map_err(|e| e.to_string())?;
+    let mut stdout = child.stdout.take().ok_or("no stdout")?;
+    let reader = std::thread::spawn(move || {
+        let mut s = Vec::new();
+        let _ = stdout.read_to_end(&mut s);
+        s
+    });
+    {
+        let mut stdin = child.stdin.take().ok_or("no stdin")?;
+        let _ = stdin.write_all(input);
+        let _ = stdin.flush();
+    }
+    let start = Instant::now();
+    let pid = child.id();
+    let status = loop {
+        match child.try_wait() {
+            Ok(Some(st)) => break Some(st),
+            Ok(None) => {}
+            Err(e) => return Err(e.to_string()),
+        }
+        if start.elapsed() > watchdog {
+            kill_tree(pid);
+            let _ = child.kill();
+            let _ = child.wait();
+            return Err("memcheck run exceeded its watchdog".into());
+        }
+        std::thread::sleep(Duration::from_millis(20));
+    };
+    let out = reader.join().unwrap_or_default();
+    let lines: Vec<String> = String::from_utf8_lossy(&out).lines().map(|l| l.to_string()).collect();
+    let text = std::fs::read_to_string(log).unwrap_or_default();
+    Ok((lines, status.and_then(|s| s.code()), text))
+}
